@@ -36,11 +36,11 @@ def correspond(ctx):
         "no configuration is both a pre-task and an init task of the loaded task; init task lists hold no duplicates",
         "post-initialisation 'after its parameters are set' is read as: after the object's own parameters are assigned (in a cycle a referenced object may not be filled yet)",
     ]
-    libs, cases = seriallib.make_cases(ctx, rng, "c13", ctx.scale(6, 60), ctx.scale(80, 200), "c13")
+    libs, cases = seriallib.make_cases(ctx, rng, "c13", ctx.scale(6, 60), ctx.scale(120, 200), "c13")
     recs = seriallib.run(ctx, libs, cases, shards=ctx.scale(8, 12))
     seriallib.evaluate(ctx, libs, cases, recs, "call log / constructed objects")
     if not ctx.quick():
-        plibs, pcases = seriallib.make_proc_cases(ctx, rng, "c13", 8, 10, "c13p")
+        plibs, pcases = seriallib.make_proc_cases(ctx, rng, "c13", 8, 15, "c13p")
         precs = seriallib.run(ctx, plibs, pcases, shards=12)
         seriallib.evaluate(ctx, plibs, pcases, precs, "real job process", with_model=False)
         ctx.extra_cov["real_job_processes"] = sum(1 for r in precs if not r["error"])
